@@ -21,7 +21,7 @@ RULE = ("cases: random recipes, assumption dictionaries over leaves and sub-prop
         "(int, numpy.int64, tuple, Bounds), then several total interpretations R of the remaining leaves. non-trivial: D and "
         "R both non-empty and the assumed model is still a compound; distinct by (shape digest, which ids D names and how)"
         ' Also: sequences of assumptions on ONE base object (all naming the same sub-proposition ids) with the kept assumed models re-judged afterwards, hostile twins.')
-BUDGET = {"quick": (12, 140, 90), "thorough": (16, 900, 1200)}
+BUDGET = {"quick": (12, 280, 90), "thorough": (16, 900, 1200)}
 PYTEST = True     # thorough tier also runs the repository's own tests under these monitors
 MANDATORY = ["judged:assume-then-evaluate==evaluate-union", "judged:bounds-contain", "contract:AtLeast.assume",
              "count:D-names-compound-constant", "count:D-names-compound-interval", "count:D-interval-leaf",
